@@ -1,4 +1,5 @@
 import CKT.Props.C10
+import CKT.Props.C10Auto
 /-!
 # C10 — semantic half: re-composing the separated subcircuits is equivalent to the original circuit
 
